@@ -26,8 +26,11 @@ CLAIMED = {
  "C08": ("Error propagation proved for all byte strings: primitive decoders return io.EOF without consuming on any incomplete code (C18); the generic bin decoder returns nil only if every primitive read succeeded and the layout is known; the sketch decoder returns nil only if every block (including the bin blocks: genuine defect found and fixed) was complete, every flag known, no mapping block differed from the sketch's mapping, and a mapping is present; all decoding loops terminate (decreases) and no decoder panics or reads out of bounds.",
          "Input domain A-DOM (assumed, listed per call in the evidence): decoded weights are finite and non-negative and accumulated indexes fit 32 bits, as in every prefix of a valid encoding. The buffered-paginated store's two native decoders are under contract (success only if exactly the declared number of bins was read; a genuine defect for counts >= 2^63 was found and fixed), its third layout goes through the generic decoder, which is not verified for that store. DecodeDDSketch's store provider is a caller-supplied function (trusted contract).",
          "DESIGN 4 C08"),
+ "C09": ("Message level only, proved for all inputs: DenseStore.ToProto (also inherited by both collapsing stores) and SparseStore.ToProto return a message that denotes exactly the store's content, where a message denotes for each index the sum of its sparse entry and its contiguous entry ('bins given both sparsely and contiguously add up'); MergeWithProto adds exactly what the message denotes to any store of the interface invariant (and FromProto builds a dense store with exactly that content); the mappings' ToProto/FromProto carry kind, base and offset unchanged (C19); DDSketch.ToProto assembles these and the zero weight and changes nothing.",
+         "NOT decided (no contract within reach): proto.Marshal/Unmarshal (reflection), the streaming writer EncodeProto and the generated builder code (so 'the bytes of the streaming writer unmarshal to the same message' is not checked at all), BufferedPaginatedStore.ToProto/EncodeProto/MergeWithProto, FromProtoWithStoreProvider at sketch level (caller-supplied provider called twice). The round trip FromProto(ToProto(s)) = s follows from the two message-level postconditions by substitution, not as one discharged lemma. Messages are assumed well formed (non-negative weights, contiguous indexes within 32 bits). A-REAL.",
+         "DESIGN AB.5 / 4 C09"),
  "C10": ("Every method of the exact-summary sketch preserves the invariant statistics.count = total weight of the sketch, count>=0, sentinel extremes when empty, min<=max otherwise; Add/AddWithCount update the statistics only when the inner sketch accepted the value with positive weight (min/max folded, count and sum added), refusals and zero weights change nothing; MergeWith, Reweight, Clear, Copy, Encode, decode have whole-state postconditions; quantile answers are clamped to [min,max]. Proved for all inputs.",
-         "In real arithmetic (A-REAL) the Kahan compensation is identically 0, so 'sum error within a few ulps' is not decided. ChangeMapping/Rescale at sketch level and the exactness of min/max as extremes of the absorbed multiset are by induction over the per-operation postconditions (not a machine-checked history lemma). Values decoded from a stream are assumed finite.",
+         "In real arithmetic (A-REAL) the Kahan compensation is identically 0, so 'sum error within a few ulps' is not decided. The exact variant's ChangeMapping is proved to rescale a copy of the statistics and leave the source untouched (redistribution helper trusted); the exactness of min/max as extremes of the absorbed multiset are by induction over the per-operation postconditions (not a machine-checked history lemma). Values decoded from a stream are assumed finite.",
          "DESIGN 4 C10"),
  "C11": ("GetValueAtQuantile's postcondition holds for arbitrary non-negative real weights: the selected bin has positive weight, lies on a non-empty side, and its cumulative interval contains the clamped rank max(q*(W-1),0); the genuine defect for total weight below 1 (answer from the empty negative side) was found and fixed.",
          "Same mapping/store assumptions as C01; A-REAL.",
@@ -39,7 +42,7 @@ CLAIMED = {
          "Mapping constructors' refusals (base <= 1, accuracy outside (0,1)) are proved; NewBin and the store constructors with bin limits are not under contract. Weights/factors are assumed finite (NaN weights are outside the documented contract).",
          "DESIGN 4 C13"),
  "C14": ("Frame conditions proved: every query of the sketch variants and of the dense, sparse and collapsing stores leaves the abstract state (mapping, zero weight, both contents, totals) unchanged; Copy returns a sketch/store with equal content whose whole footprint is freshly allocated, so later operations on either cannot affect the other (every mutator's modifies clause is confined to the receiver's footprint).",
-         "Buffered-paginated store: Copy independence, Encode and compaction purity are proved or assumed as listed under C04; its iteration/rank queries (which sort the buffer) are not under contract. ToProto/EncodeProto purity and ChangeMapping are not covered.",
+         "Buffered-paginated store: Copy independence, Encode and compaction purity are proved or assumed as listed under C04; its iteration/rank queries (which sort the buffer) are not under contract. ToProto purity is proved at message level (C09); EncodeProto purity is not covered. ChangeMapping of both variants is proved to leave the source sketch and its statistics unchanged and to rescale a copy of the statistics, with the redistribution helper changeStoreMapping TRUSTED (only its frame is assumed; C17 not claimed).",
          "DESIGN 4 C14"),
  "C15": ("Clear of the dense, sparse and collapsing stores, of the statistics and of both sketch variants is proved to establish exactly the constructor's postcondition on the complete abstract state (empty content, sentinel window, isCollapsed reset, zero weight 0); retained capacity is covered because the first append after Clear is proved to re-zero the reused array.",
          "Buffered-paginated Clear is proved on the store's own abstraction (C04); 'every subsequent history behaves alike' is by determinism of the contracts over the abstract state (not a machine-checked lemma).",
@@ -67,7 +70,7 @@ CLAIMED = {
 NA = {
  "C03x": "mapping implementations (Index/Value/LowerBound of the three mappings, their constructors) are not yet under contract: the relative-accuracy inequalities need lemma-guided transcendental/nonlinear reasoning that is under construction; until then the IndexMapping contract is an assumption of C01/C05/C11 (constructors are marked trusted). No check is claimed.",
  "C04x": "BufferedPaginatedStore (buffer + pages, sort/compaction on read) is not yet under contract; no check is claimed.",
- "C09": "the protobuf conversion functions (ToProto/FromProto*/MergeWithProto/EncodeProto) depend on generated protobuf code and reflection-based marshalling that is outside the verifier's Go subset; contracts over the sketchpb structs are under construction. No check is claimed.",
+ "C09x": "the protobuf conversion functions (ToProto/FromProto*/MergeWithProto/EncodeProto) depend on generated protobuf code and reflection-based marshalling that is outside the verifier's Go subset; contracts over the sketchpb structs are under construction. No check is claimed.",
  "C17": "ChangeMapping/changeStoreMapping (redistribution of weight by interval overlap) is not yet under contract; no check is claimed.",
  "C19x": "IndexMapping.Equals/withinTolerance and the mapping encoders' identity are not yet under contract (the abstract relation MEq is assumed to be what Equals decides); no check is claimed.",
 }
